@@ -171,9 +171,23 @@ check("C20", "other",
       "bounded symbolic execution of the MIR of commands::test::Args::run and main (bin crate) with a scripted executor and free validation verdicts; "
       "z3 decides each path's postcondition; witnesses replayed end to end through the real scrut binary", "E2", "DESIGN.md §3 C20")
 
+check("C18", "other",
+      "Partial: `scrut test`. On the MIR of the whole commands::test::Args::run with the real TestEnvironment / UniqueNamer code and a ledger in "
+      "place of tempfile / std::fs (creation, into_path, exists and — through the MIR's executed drop statements — removal are tracked per "
+      "path): at every executor call the work and temporary directory exist and the work directory is not shared with another document "
+      "(or is the given --work-directory); every test case carries TESTDIR, TESTFILE, TESTSHELL, TMPDIR and the documented locale / terminal "
+      "variables with the right values; when run returns (success, validation failure, time-out, skip, execution error) nothing scrut "
+      "created is left unless --keep-temporary-directories, a given --work-directory stays and only the temporary directory inside it is "
+      "gone. SCRUT_TEST=<path>:<line> per test case is decided on the MIR of StatefulExecutor::execute_all. 1 document with 1..2/3 test cases "
+      "(every executor result shape), 2 and 3 documents (also identical file names); the three admissible flag combinations. Witnesses and a "
+      "sample of configurations run through the real binary with probe commands and a private $TMPDIR. Parse errors before the loop, panics / "
+      "signals, several scrut processes at once, the update / create commands and the real file system are not claimed.",
+      E2_NOTE + " tempfile::TempDir is replaced by its documented contract (create / drop removes the tree / into_path keeps it).",
+      "bounded symbolic execution of the MIR of commands::test::Args::run (bin crate) with the real environment code over a file-system ledger "
+      "driven by the MIR's drop statements; z3 decides each path's postcondition; witnesses replayed through the real scrut binary", "E2", "DESIGN.md §3 C18")
+
 NA_LIST = [
     ("C12", "Shell-state carry-over is implemented by a bash script; no encoding of bash semantics is available here."),
-    ("C18", "File-system / process-exit effects (TempDir Drop, directory uniqueness); outside any encoding available here."),
 ]
 PENDING = []
 
